@@ -327,3 +327,6 @@ Qed.
 
 Theorem format6_plain : forall c x, cfg_ok c = true -> plain_decimal (format6 c x) = true.
 Proof. intros c x H. unfold format6. apply render_plain, format6_shape, H. Qed.
+
+Theorem format6_plain_gen : forall c x, cfg_base_ok c = true -> carved c x = false -> plain_decimal (format6 c x) = true.
+Proof. intros c x H1 H2. unfold format6. apply render_plain, format6_shape_gen; assumption. Qed.
